@@ -109,7 +109,7 @@ def run_unit(unit, variant, multiple_errors=20, extra_args=(), rlimit=None, inli
     tmpl = os.path.join(VERIF, "units", unit, "unit.rs")
     try:
         b = B.build(tmpl, REPO, variant, inline)
-    except (LostAnchor, Unsupported) as e:
+    except Exception as e:   # LostAnchor, Unsupported and any internal error of the template processor: no verdict for this unit
         ur.status, ur.reason = "undecided", "%s: %s" % (type(e).__name__, e)
         return ur
     ur.build = b
